@@ -67,6 +67,10 @@ RV(p, j) == p * 64 + 32 + j
 IsRV(v)  == (v % 64) >= 32
 NodeOf(v) == v \div 64
 
+\* An axis length is a natural number; a length >= Symbolic stands for a size
+\* parameter (equal codes = the same parameter).  The rules only ask whether
+\* two lengths are equal and whether a length is 0 or 1.
+Symbolic == 100000
 NDim(g, p) == Len(g.nodes[p].shape)
 Dim(g, p, i) == g.nodes[p].shape[i + 1]          \* i 0-based
 Axes(g, p) == 0..(NDim(g, p) - 1)
@@ -99,7 +103,8 @@ RollMust(g, p) ==
   LET n == g.nodes[p] IN {<<AV(n.a, j), AV(p, j)>> : j \in Axes(g, p) \ {n.axis}}
 RollMay(g, p) ==
   LET n == g.nodes[p] len == Dim(g, p, n.axis) IN
-  IF len = 0 \/ (len > 0 /\ n.shift % len = 0) THEN {<<AV(n.a, n.axis), AV(p, n.axis)>>}
+  IF len = 0 \/ (len > 0 /\ len < Symbolic /\ n.shift % len = 0)
+  THEN {<<AV(n.a, n.axis), AV(p, n.axis)>>}
   ELSE {}
 
 \* ---- transpose: result axis i is operand axis perm[i]
